@@ -2,7 +2,7 @@
 import p_simple
 
 PID = "C20"
-RULE = ("%d random generator configurations (1-5 values of kind int/uint/double range with or without deltas, int/string/bool option lists cyclic or random, "
+RULE = ("%d random generator configurations (1-5 values of kind int/uint/double range with or without deltas, int/string/bool option lists cyclic or random, string lists (random sub-list or rotating options), "
         "constants, delete, initial timestamps 0-5, timestamp deltas 0-5 incl. fixed periods, repeat 0/1/2/3/5, per-value and global seeds, plus the sync "
         "value injected as the fake client does) each run twice with the same seed for up to %d validated emissions (window 4x for look-ahead); TLC validates "
         "every emission against FakeQueueTrace.tla: it is the head of the first timestamp bucket with exactly the pending timestamp/content/repeat, "
@@ -23,7 +23,7 @@ def run(tier):
                         "FakeQueueTrace.tla", RULE % (n, emit, an),
                         ["configurations stay far from int64 overflow", "doubles are logged in thousandths (slack 1 for rounding)",
                          "the draw of the pseudo-random generator is inferred from the same value's next emission in the recorded sequence",
-                         "string-list (leaf-list) values and the FixedQueue are not covered; the agent stage uses STREAM subscriptions without delays"],
+                         "the FixedQueue is not covered; string-list options are distinct; the agent stage uses STREAM subscriptions without delays"],
                         boundary=("cfg",), trivial=lambda l: b'"ev":"cfg"' in l or b'"ev":"end"' in l)
 
 
